@@ -49,10 +49,12 @@ func ChopFile(ctx context.Context, name string, chunks []IndexChunk, ws WriteSto
 	}
 
 	// Feed the workers, stop if there are any errors
+	var interrupted bool
 loop:
 	for _, c := range chunks {
 		select {
 		case <-ctx.Done():
+			interrupted = true
 			break loop
 		case in <- c:
 		}
@@ -60,7 +62,11 @@ loop:
 
 	close(in)
 
-	return g.Wait()
+	err := g.Wait()
+	if err == nil && interrupted {
+		err = Interrupted{}
+	}
+	return err
 }
 
 // Helper function to read chunk contents from file
